@@ -9,7 +9,10 @@ def relevant(d, hist):
 
 def signature(d, hist):
     op = hist[-1]["op"]
-    what = op["k"] + ("(" + op.get("c", "") + ")" if op["k"] == "update" else "")
+    uc = R.upsert_class(hist)
+    if uc:
+        return "%s:upsert:%s:%s" % (d["kind"], uc, R.upsert_why(hist) or ("set_" + op["c"] if op["k"] == "upsert" else op["k"]))
+    what = R.opname(op)
     return "%s:%s:%s" % (d["kind"], what, ",".join(R.features(hist)) or "-")
 
 
@@ -73,7 +76,11 @@ def probe_phase(chk):
 
 def run(chk):
     relrun.standard(chk, relevant, signature)
+    cov = chk.cov
+    cov["upsert"] = relrun.upsert_phase(chk, relevant, signature)
+    chk.mark("upsert")
     probe_phase(chk)
+    chk.cov["upsert"] = cov["upsert"]
 
 
 def replay(chk, path):
